@@ -551,6 +551,63 @@ def codec_worker(job):
     return acc
 
 
+# file types and encode histories: one attributes object served to sessions of different versions
+TYPE_MODE = {1: 0o100644, 2: 0o040755, 3: 0o120777, 6: 0o140600, 7: 0o020600, 8: 0o060600, 9: 0o010600}
+
+
+def history_worker(_job):
+    """every file type x every sequence of <= 3 protocol versions applied to ONE SFTPAttrs / SFTPName object
+    (a server caching stat results, a client passing a stat result on): encoding never changes the object,
+    the k-th encoding equals what a fresh object gives, and each version carries the type it can carry"""
+    import copy
+    acc = core.Acc()
+    for t in range(1, 10):
+        for with_perm in (False, True):
+            for seq in [p for n in (1, 2, 3) for p in itertools.product((3, 4, 5, 6), repeat=n)]:
+                def fresh():
+                    a = SFTPAttrs()
+                    a.type = t
+                    a.size = 7
+                    if with_perm and t in TYPE_MODE:
+                        a.permissions = TYPE_MODE[t]
+                    return a
+                obj = fresh()
+                before = repr(vars(obj))
+                viol = []
+                try:
+                    for i, v in enumerate(seq):
+                        enc = obj.encode(v) if i % 2 == 0 else SFTPName(b'n', b'', obj).encode(v)[4 + 1 + (4 if v == 3 else 0):]
+                        want = fresh().encode(v)
+                        if enc != want:
+                            viol.append(('encode-depends-on-history', 'type %d: encoding for v%d after %r differs from a fresh object\'s'
+                                         % (t, v, seq[:i])))
+                            break
+                        if repr(vars(obj)) != before:
+                            viol.append(('encode-mutates-object', 'type %d: object changed by encode(v%d) after %r: %s -> %s'
+                                         % (t, v, seq[:i], before, repr(vars(obj)))))
+                            break
+                        pkt = SSHPacket(enc)
+                        back = SFTPAttrs.decode(pkt, v)
+                        pkt.check_end()
+                        if v >= 5:
+                            exp_t = t
+                        elif v == 4:
+                            exp_t = 4 if t >= 6 else t
+                        else:
+                            exp_t = t if (with_perm and t in TYPE_MODE) else 5
+                        if back.type != exp_t:
+                            viol.append(('type-not-carried', 'type %d over v%d (permissions %s) decodes as type %d, expected %d'
+                                         % (t, v, oct(obj.permissions) if obj.permissions is not None else None, back.type, exp_t)))
+                            break
+                except Exception as exc:        # pylint: disable=broad-except
+                    viol.append(('codec-exception', 'type %d seq %r: %r' % (t, seq, exc)))
+                acc.add(core.digest(('hist', t, with_perm, seq)), transitions=len(seq),
+                        sample={'file_type': t, 'versions_in_order': list(seq)} if t == 9 and seq == (4, 6) and with_perm else None)
+                for k, det in viol:
+                    acc.violation('codec:%s' % k, det, {'kind': 'history'})
+    return acc
+
+
 def misc_codecs():
     acc = core.Acc()
     objs = [SFTPVFSAttrs(4096, 4096, 1000, 900, 800, 100, 90, 80, 0x1234, 1, 255),
@@ -604,13 +661,15 @@ def main(tier, seed):
             cj.append((v, allm[i:i + 2048]))
     acc.merge(core.pmap(codec_worker, cj))
     acc.merge(misc_codecs())
+    acc.merge(core.pmap(history_worker, [0]))
     shutil.rmtree(SCRATCH, ignore_errors=True)
     rule = ('(a) %d sets of 2-3 concurrent SFTPClient calls over the model server; at every step any outstanding '
             'request may be answered correctly, or (once) with each wrong reply type, an unknown id, a duplicate id '
             'or another caller\'s id, or a caller is cancelled and its reply arrives late; DFS bound %d; (b) versions '
             '3-6 x every request type/extension x well-formed, every truncation, trailing byte, then a probe '
             'request; error mapping for 16 errno values and 19 SFTPError classes per version; (c) attribute codecs '
-            'for every subset of 5 (v3), 9 (v4), 10 (v5), 16 (v6) field groups incl. independent layout encoders'
+            'for every subset of 5 (v3), 9 (v4), 10 (v5), 16 (v6) field groups incl. independent layout encoders; '
+            'every file type x every sequence of <= 3 versions encoded from one object (no mutation, no history)'
             % (len(call_sets), bound))
     return core.finish(PROP, tier, seed, 'model_checking', acc, t0, rule,
                        {'client_execs': n_a, 'server_execs': n_b, 'codec_cases': acc.evaluations - n_a - n_b},
@@ -635,7 +694,7 @@ def replay(rep):
         v = codec_worker((r['v'], [r['mask']])).violations
         print(json.dumps(v, indent=1, default=repr))
     else:
-        v = misc_codecs().violations
+        v = misc_codecs().violations + history_worker(0).violations
     if v:
         print('VIOLATION property=%s replay=(given)' % PROP)
         return 1
